@@ -14,7 +14,7 @@ From WV Require Import Gen.Ops Model.Common Model.IR Model.Arena Model.Builder M
   Model.Traversal Model.EmitFn Model.EmitSpec Model.BodySpec Model.ModuleM Model.ParseM Model.EmitM Model.CodeMap.
 From WV Require Import Proofs.ParseFn Proofs.Body.
 From WV Require Proofs.Builder.
-From WV Require Import Proofs.CodeMap.
+From WV Require Import Proofs.CodeMap Model.Leb Model.Dwarf Proofs.Leb.
 Local Open Scope nat_scope.
 
 Theorem c11_pairs_one_per_location : forall efs loc v v',
@@ -97,6 +97,40 @@ Proof. exact (insert_i_spec a cur pos i a'). Qed.
 Theorem c11_inserted_not_in_map : forall efs v, ~ In (default_loc, v) (ct_pairs efs).
 Proof. exact inserted_not_in_map. Qed.
 
+(* ---- LEB128 below the layout model (Model/Leb.v; proofs in Proofs/Leb.v): the bytes of every count, size field and integer
+   immediate.  Compared byte for byte with wasm-encoder / wasmparser by the C11 harness run (Run/LebRun.v). *)
+Theorem c11_leb_roundtrip : forall n rest, (n < 2^126)%N -> dec_u (enc_u n ++ rest) = Some (n, rest).
+Proof. exact dec_enc_u. Qed.
+
+Theorem c11_leb_prefix_free : forall n m r1 r2, (n < 2^126)%N -> (m < 2^126)%N ->
+  enc_u n ++ r1 = enc_u m ++ r2 -> n = m /\ r1 = r2.
+Proof. exact enc_u_prefix_free. Qed.
+
+Theorem c11_leb_shape : forall n, exists pre l, enc_u n = pre ++ [l] /\ (l < 128)%N /\ Forall (fun b => (128 <= b)%N) pre.
+Proof. exact enc_u_last. Qed.
+
+(* the length functions of the layout models ARE the encoded lengths *)
+Theorem c11_leb_length_is_leb_len : forall n, (n < 2^64)%N -> N.of_nat (length (enc_u n)) = leb_len n.
+Proof. exact enc_u_len. Qed.
+
+Theorem c11_leb_length_is_leb5 : forall n, (n < 2^32)%N -> N.of_nat (length (enc_u n)) = leb5 n.
+Proof. exact enc_u_len5. Qed.
+
+(* minimal encoding: the length is the least k with n < 2^(7k); monotone *)
+Theorem c11_leb_len_minimal : forall n, (n < 2^64)%N ->
+  (n < 2^(7 * leb_len n))%N /\ forall k, (0 < k)%N -> (n < 2^(7 * k))%N -> (leb_len n <= k)%N.
+Proof. exact leb_len_least. Qed.
+
+Theorem c11_leb_len_monotone : forall n m, (n <= m)%N -> (m < 2^64)%N -> (leb_len n <= leb_len m)%N.
+Proof. exact leb_len_mono. Qed.
+
+Theorem c11_leb_signed_roundtrip : forall z rest, (-2^125 <= z < 2^125)%Z -> dec_s (enc_s z ++ rest) = Some (z, rest).
+Proof. exact dec_enc_s. Qed.
+
+Theorem c11_leb_signed_prefix_free : forall z w r1 r2, (-2^125 <= z < 2^125)%Z -> (-2^125 <= w < 2^125)%Z ->
+  enc_s z ++ r1 = enc_s w ++ r2 -> z = w /\ r1 = r2.
+Proof. exact enc_s_prefix_free. Qed.
+
 Print Assumptions c11_pairs_one_per_location.
 Print Assumptions c11_inserted_instructions_in_no_pair.
 Print Assumptions c11_pairs_sound.
@@ -114,3 +148,12 @@ Print Assumptions c11_old_formula_refuted.
 Print Assumptions c11_old_formula_right_only_for_two_byte_count.
 Print Assumptions c11_marker_default_loc.
 Print Assumptions c11_inserted_not_in_map.
+Print Assumptions c11_leb_roundtrip.
+Print Assumptions c11_leb_prefix_free.
+Print Assumptions c11_leb_shape.
+Print Assumptions c11_leb_length_is_leb_len.
+Print Assumptions c11_leb_length_is_leb5.
+Print Assumptions c11_leb_len_minimal.
+Print Assumptions c11_leb_len_monotone.
+Print Assumptions c11_leb_signed_roundtrip.
+Print Assumptions c11_leb_signed_prefix_free.
